@@ -455,6 +455,10 @@ def check(P, R, tier):
     import monthdecode
     nm = monthdecode.run(R, tu, "RF2-mon")
     R.floor("RF2-mon", "decoded points of the month / year adders and fixups", nm, 30000)
+    # a sign read apart from the number is applied by negating the parsed duration
+    import durdecode
+    nn = durdecode.check(R, P, "RF2-neg")
+    R.floor("RF2-neg", "decoded parses / negations / sign tests of durations", nn, 150)
 
 
 LEVEL = ("Decides month / year addition structurally for all dates and counts: 12*year + month moves by exactly n (linear loop "
